@@ -252,8 +252,27 @@ def w_gr_rle8(d):
     return p, [f]
 
 
+def w_h_nocache(d):
+    """descriptor caching switched off: every descriptor update is written through at once, incl. the creation
+    and linking of a second descriptor block; one element is deleted and one rewritten"""
+    p = Prog()
+    f = os.path.join(d, "nc.hdf")
+    p.call("i", "Hopen", f, 7, 4, bind="f")
+    p.call("i", "Hcache", V("f"), 0)
+    for i in range(1, 8):
+        p.call("i", "Hputelement", V("f"), 1000, i, bytes([i]) * (3 * i), 3 * i)
+    p.call("i", "Hdeldd", V("f"), 1000, 2)
+    p.call("i", "Hputelement", V("f"), 1000, 3, b"rewritten", 9)
+    p.call("i", "Hstartwrite", V("f"), 1001, 1, 10, bind="a")
+    p.call("i", "Hwrite", V("a"), 10, b"0123456789")
+    p.call("i", "Hendaccess", V("a"))
+    p.call("i", "Hgetelement", V("f"), 1000, 7, Out(30))
+    p.call("i", "Hclose", V("f"))
+    return p, [f]
+
+
 # further write workloads; indices continue after the read-only scans (keeps older replay files valid)
-WORKLOADS2 = [("sd_dims", w_sd_dims), ("gr_rle8", w_gr_rle8)]
+WORKLOADS2 = [("sd_dims", w_sd_dims), ("gr_rle8", w_gr_rle8), ("h_nocache", w_h_nocache)]
 
 
 def w_read_scan(d):
